@@ -3,6 +3,7 @@ CONSTANTS
   Sizes <- S4
   Cuts <- CutsBig
   PersistentReader = TRUE
+  BreakAllowed = FALSE
 VIEW View
 INVARIANTS NothingLost InOrderOnce
 PROPERTY AllDelivered
